@@ -614,7 +614,8 @@ def resampleStepwise(xin, yin, xout, avg=True):
     for i in range(1, len(bins)):
         start = bins[i - 1]
         end = bins[i]
-        chunk = yin[start - 1 : end]
+        # a copy: a slice of a numpy array is a view, trimming it would change the caller's values
+        chunk = list(yin[start - 1 : end])
         length = xin[start - 1 : end + 1]
         length = [length[j] - length[j - 1] for j in range(1, len(length))]
 
@@ -632,7 +633,7 @@ def resampleStepwise(xin, yin, xout, avg=True):
             elif avg:
                 length[-1] *= fraction
             else:
-                chunk[-1] *= fraction
+                chunk[-1] = chunk[-1] * fraction
 
         # trim any partial left-side bins
         if xout[i - 1] > xin[start - 1]:
@@ -643,7 +644,7 @@ def resampleStepwise(xin, yin, xout, avg=True):
             elif avg:
                 length[0] *= fraction
             else:
-                chunk[0] *= fraction
+                chunk[0] = chunk[0] * fraction
 
         # return the sum or the average
         if [1 for c in chunk if (not hasattr(c, "__len__") and c is None)]:
